@@ -19,24 +19,24 @@ import (
 // ---- C03 C11 C17: spec/Selection.tla ----
 
 type layItem struct {
-	K         string `json:"k"`
-	ID        string `json:"id"`
-	Form      string `json:"form"`
-	Doc       bool   `json:"doc"`
-	Trail     bool   `json:"trail"`
-	Gen       bool   `json:"gen"`
-	Named     bool   `json:"named"`
-	Marked    bool   `json:"marked"`
-	Lookalike bool   `json:"lookalike"`
-	Nmeth     int    `json:"nmeth"`
-	Short     bool   `json:"short"`
-	Oneline   bool   `json:"oneline"`
-	Mdoc      bool   `json:"mdoc"`
-	After     bool   `json:"after"`
-	Gap       int    `json:"gap"`
-	Long      bool   `json:"long"`
-	Nm        string `json:"nm"`
-	Mention   bool   `json:"mention"`
+	K         string   `json:"k"`
+	ID        string   `json:"id"`
+	Form      string   `json:"form"`
+	Doc       bool     `json:"doc"`
+	Trail     bool     `json:"trail"`
+	Gen       bool     `json:"gen"`
+	Named     bool     `json:"named"`
+	Marked    bool     `json:"marked"`
+	Lookalike bool     `json:"lookalike"`
+	Nmeth     int      `json:"nmeth"`
+	Short     bool     `json:"short"`
+	Oneline   bool     `json:"oneline"`
+	Mdoc      bool     `json:"mdoc"`
+	After     bool     `json:"after"`
+	Gap       int      `json:"gap"`
+	Long      bool     `json:"long"`
+	Nm        string   `json:"nm"`
+	Mention   bool     `json:"mention"`
 	name      string   // interface name fixed by layNames
 	methods   []string // method names fixed by layNames (recvsame)
 }
@@ -370,6 +370,7 @@ type layObs struct {
 }
 
 var reLeft = regexp.MustCompile(`(?m)^\s*//\s*(go:generate\b.*|go:build convergen\b.*|\+build convergen\b.*)$`)
+
 // declDoc says whether the doc comment of a carried-over declaration is complete: its token line and - where the
 // layout put them there - the prose lines that mention a directive.
 func declDoc(it *layItem, cg *ast.CommentGroup) bool {
